@@ -13,12 +13,14 @@ def sh(*a, **k):
 
 def main():
     args = sys.argv[1:]
-    tier, note = "quick", None
+    tier, note, seeds = "quick", None, None
     while args and args[0].startswith("--"):
         if args[0] == "--tier":
             tier = args[1]
         elif args[0] == "--note":
             note = args[1]
+        elif args[0] == "--seeds":        # e.g. --seeds 0,1,2 : caught only if every seed catches it (recorded as seeds_caught)
+            seeds = [int(x) for x in args[1].split(",")]
         args = args[2:]
     targets = []
     for a in args:
@@ -44,8 +46,16 @@ def main():
             print("%s: patch does not apply: %s" % (t, r.stdout.strip()[:200]))
             rc_all = 2
             continue
+        per_seed = {}
         try:
-            r = sh(os.path.join(VERIF, "check"), pid, tier, cwd=VERIF)
+            if seeds:
+                for sd in seeds:
+                    r = sh(os.path.join(VERIF, "check"), pid, tier, cwd=VERIF, env=dict(os.environ, VERIF_SEED=str(sd)))
+                    per_seed[sd] = r.returncode
+                    if r.returncode != 1:
+                        break
+            else:
+                r = sh(os.path.join(VERIF, "check"), pid, tier, cwd=VERIF)
         finally:
             sh("git", "-C", "/repo", "checkout", "--", ".")
         mech = [re.sub(r"\s+\(x\d+\)\s*$", "", l.split("mechanism: ", 1)[1]) for l in r.stdout.splitlines() if l.startswith("  mechanism: ")][:4]
@@ -53,11 +63,13 @@ def main():
         old = meta.get("check_result")
         if old and old.get("caught") != new["caught"] and "check_result_first" not in meta:
             meta["check_result_first"] = old
+        if per_seed:
+            new["seeds"] = {str(k): v for k, v in per_seed.items()}
         meta["check_result"] = new
         if note:
             meta["strengthened"] = note
         json.dump(meta, open(os.path.join(d, "meta.json"), "w"), indent=1)
-        print("%s: exit %d  %s" % (t, r.returncode, "; ".join(mech)))
+        print("%s: exit %d %s %s" % (t, r.returncode, per_seed if per_seed else "", "; ".join(mech)))
         if r.returncode != 1:
             rc_all = rc_all or 1
     return rc_all
